@@ -29,6 +29,7 @@ def main():
     if os.path.exists(os.path.join(wt, 'NOTES.md')):
         shutil.copy(os.path.join(wt, 'NOTES.md'), os.path.join(dest, 'NOTES.md'))
     tmp = tempfile.mkdtemp(prefix='kseed-')
+    os.chmod(tmp, 0o755)   # demos that re-exec under another uid must be able to reach the test binary
     meta = {'property': prop, 'name': name, 'confirmed_at': time.strftime('%Y-%m-%dT%H:%M:%SZ', time.gmtime())}
     try:
         repo = os.path.join(tmp, 'repo')
